@@ -109,6 +109,20 @@ fn rational_reconstruction(s: &BigInt, h: &BigInt) -> BigRational {
 }
 
 
+/// Matrix of big integers as JSON rows of decimal strings, for the conformance
+/// harness in /verif.
+#[cfg(rust_dsymbols_verif)]
+fn verif_rows(m: &VecMatrix<BigInt>) -> String {
+    let rows: Vec<String> = (0..m.nr_rows()).map(|i| {
+        let r: Vec<String> = (0..m.nr_columns())
+            .map(|j| format!("\"{}\"", m[i][j]))
+            .collect();
+        format!("[{}]", r.join(","))
+    }).collect();
+    format!("[{}]", rows.join(","))
+}
+
+
 //const PRIME: i64 = 9_999_991;
 const PRIME: i64 = 3_037_000_493;
 
@@ -132,12 +146,22 @@ pub fn solve(a: &VecMatrix<i64>, b: &VecMatrix<i64>)
         for step in 0..nr_steps {
             let x = (&c * b.to()).to();
 
+            #[cfg(rust_dsymbols_verif)]
+            let (verif_x, verif_b) = (verif_rows(&x), verif_rows(&b));
+
             s = s + &x * &p;
             p *= &prime;
 
             if step + 1 < nr_steps {
                 b = &(b - &a * x) / &prime;
             }
+
+            #[cfg(rust_dsymbols_verif)]
+            crate::verif::emit_with(|| format!(
+                "{{\"ev\":\"padic_step\",\"step\":{},\"of\":{},\"prime\":\"{}\",\"b\":{},\"x\":{},\"s\":{},\"p\":\"{}\",\"b_next\":{}}}",
+                step, nr_steps, prime, verif_b, verif_x, verif_rows(&s), p,
+                if step + 1 < nr_steps { verif_rows(&b) } else { "null".to_string() }
+            ));
         }
 
         let mut result = VecMatrix::new(nrows, ncols);
